@@ -45,6 +45,10 @@ Definition bound (x : option nat) (d : nat) : nat := match x with Some n => n | 
 Definition fa_setitem (l : list B) (start stop : option nat) (data : list B) : option (list B) :=
   fa_set_slice l (bound start 0) (bound stop (length l)) data.
 
+(* slice read a[start:stop] with optional bounds *)
+Definition fa_getitem (l : list B) (start stop : option nat) : list B :=
+  fa_slice l (bound start 0) (bound stop (length l)).
+
 (* ---- operation sequences on the flat array ---- *)
 
 Inductive fop : Type :=
